@@ -550,6 +550,11 @@ class AbstractDimArray(AbstractHasAxes):
         if np.isscalar(values):
             return values
 
+        # every dimension dropped: the element itself (arrays of objects may hold None, lists, dicts...
+        # which are no numpy scalars)
+        if len(axes) == 0 and not isinstance(values, np.ndarray):
+            return values
+
         dima = self._constructor(values, axes) # initialize DimArray
         dima.attrs.update(self.attrs) # add attribute
 
